@@ -18,6 +18,10 @@ Three layers, kept apart on purpose:
            A schema returns (premises, conclusions); an item is ('fact', name, formula) or
            ('forall', name, lo, hi, body(t), pattern(t)): for all lo <= t < hi.
 
+The csv format (DESIGN 11.18): the model m_csv_* copies lemmas/TextCsv.lean (the writer's quoting rule, the reader's state machine, in the excel
+dialect), class Z3TC is its z3 vocabulary, schema L_csv_excel its one lemma; _selftest_csv_model / _selftest_csv_schemas / selftest_lean_csv validate
+"CPython's csv module computes these definitions in this dialect".
+
 Vocabulary of the z3 side (sorts Txt = list of characters, Lines = list of texts; all functions uninterpreted):
     strip(x)  split_nlnl(x)  split_nl(x)  split_ws(x)  unlines(L)  join_nl(L)  cat_nl(a, b) = a + '\\n' + b  dec(k)  int_of(x)
     written(L) = what `for l in L: print(l, file=buf)` leaves in an io.StringIO(newline=None)      tlen(x)  chr_at(x, i)
@@ -224,6 +228,146 @@ def m_csv_rows(text):
     return [m_csv_fields(m_chomp(l)) for l in m_lines_keep(text)]
 
 
+# ---- the csv module in the excel dialect (lemmas/TextCsv.lean): the writer's quoting rule, the reader's state machine
+
+EXCEL_DIALECT = {'delimiter': ',', 'quotechar': '"', 'escapechar': None, 'doublequote': True, 'skipinitialspace': False,
+                 'lineterminator': '\r\n', 'quoting': 'QUOTE_MINIMAL', 'strict': False}
+
+
+def m_csv_special(c):
+    """special c: the delimiter, the quotechar, the characters of the lineterminator"""
+    return c == ',' or c == '"' or c == '\r' or c == '\n'
+
+
+def m_csv_needs_quote(f):
+    return any(m_csv_special(c) for c in f)
+
+
+def m_csv_escape(f):
+    """escape f = f.flatMap fun c => if c = '"' then ['"', '"'] else [c]"""
+    return ''.join('""' if c == '"' else c for c in f)
+
+
+def m_csv_quoted(f):
+    return '"' + m_csv_escape(f) + '"'
+
+
+def m_csv_write_field(f):
+    return m_csv_quoted(f) if m_csv_needs_quote(f) else f
+
+
+def m_csv_row_body(r):
+    """rowBody r = if r = [[]] then quoted [] else [','].intercalate (r.map writeField)"""
+    return m_csv_quoted('') if list(r) == [''] else m_intercalate(',', [m_csv_write_field(f) for f in r])
+
+
+def m_csv_write_row(r):
+    return m_csv_row_body(r) + '\r\n'
+
+
+def m_csv_write_rows(rs):
+    return ''.join(m_csv_write_row(r) for r in rs)
+
+
+def _csv_break(c):
+    return c == '\n' or c == '\r'
+
+
+def _csv_add(lim, s, c, st):
+    """addChar: None (_csv.Error, field larger than field limit) when the field already has lim characters"""
+    _, field, fields = s
+    return (st, field + c, fields) if len(field) < lim else None
+
+
+def _csv_save(s, st):
+    _, field, fields = s
+    return (st, '', fields + [field])
+
+
+def _csv_step_start_field(lim, s, t):
+    if t is None:
+        return _csv_save(s, 'startRecord')
+    if _csv_break(t):
+        return _csv_save(s, 'eatCrnl')
+    if t == '"':
+        return ('inQuoted',) + s[1:]
+    if t == ',':
+        return _csv_save(s, 'startField')
+    return _csv_add(lim, s, t, 'inField')
+
+
+def m_csv_step(lim, s, t):
+    """step lim s t: the state (st, field, fields) behind the token t (a character, or None = the end of a line); None = _csv.Error"""
+    st = s[0]
+    if st == 'startRecord':
+        if t is None:
+            return s
+        return ('eatCrnl',) + s[1:] if _csv_break(t) else _csv_step_start_field(lim, s, t)
+    if st == 'startField':
+        return _csv_step_start_field(lim, s, t)
+    if st == 'inField':
+        if t is None:
+            return _csv_save(s, 'startRecord')
+        if _csv_break(t):
+            return _csv_save(s, 'eatCrnl')
+        if t == ',':
+            return _csv_save(s, 'startField')
+        return _csv_add(lim, s, t, 'inField')
+    if st == 'inQuoted':
+        if t is None:
+            return s
+        return ('quoteInQuoted',) + s[1:] if t == '"' else _csv_add(lim, s, t, 'inQuoted')
+    if st == 'quoteInQuoted':
+        if t is None:
+            return _csv_save(s, 'startRecord')
+        if t == '"':
+            return _csv_add(lim, s, t, 'inQuoted')
+        if t == ',':
+            return _csv_save(s, 'startField')
+        if _csv_break(t):
+            return _csv_save(s, 'eatCrnl')
+        return _csv_add(lim, s, t, 'inField')
+    assert st == 'eatCrnl'
+    if t is None:
+        return ('startRecord',) + s[1:]
+    return s if _csv_break(t) else None
+
+
+def m_csv_read_lines(lim, lines):
+    """csvReadLines lim lines = run lim init (toks lines): the rows, or None (_csv.Error)"""
+    init = ('startRecord', '', [])
+    s, rows = init, []
+    for l in lines:
+        for t in list(l) + [None]:
+            s = m_csv_step(lim, s, t)
+            if s is None:
+                return None
+        if s[0] == 'startRecord':           # behind an end-of-line token: the record is complete
+            rows.append(s[2])
+            s = init
+    if s[0] == 'inQuoted':                  # the lines end inside a quoted field: the field and the record are closed
+        rows.append(s[2] + [s[1]])
+    return rows
+
+
+def m_csv_read_rows(lim, text):
+    """csvReadRows lim text = csvReadLines lim (linesKeep '\\n' text)"""
+    return m_csv_read_lines(lim, m_lines_keep(text))
+
+
+def m_lines_univ(s):
+    """the lines of a file opened with newline='': cut behind '\\n', behind '\\r\\n' and behind a '\\r' that no '\\n' follows (NOT in the
+    Lean file: used by the self-test only, to run the reader's state machine on one more way of cutting a text into lines)"""
+    out, acc, i = [], '', 0
+    while i < len(s):
+        acc += s[i]
+        if s[i] == '\n' or (s[i] == '\r' and s[i + 1:i + 2] != '\n'):
+            out.append(acc)
+            acc = ''
+        i += 1
+    return out + ([acc] if acc else [])
+
+
 # ---------------------------------------------------------------------------------------------------------------------
 # 3a. the concrete interpretation: CPython's own functions
 
@@ -367,6 +511,55 @@ class PyT:
     @classmethod
     def fimi_lines(cls, R):
         return [' '.join(cls.fimi_nums(R, t)) for t in range(len(R))]
+
+    # ---- the csv module in the excel dialect (concepts/formats/csv_context.py; the units compare Csv.dialect / Csv.newline with it)
+    ncells = staticmethod(len)                                      # a row: how many cells, which cell
+    cell_at = staticmethod(lambda C, i: C[i] if C is not None and 0 <= i < len(C) else None)
+    nrows = staticmethod(len)                                       # rows: how many, which
+    row_at = staticmethod(lambda R, i: R[i] if 0 <= i < len(R) else None)
+
+    @staticmethod
+    def csv_limit():
+        import csv
+        return csv.field_size_limit()
+
+    @staticmethod
+    def csv_excel_text(R):
+        """the real thing: what tools.write_csv_file leaves in the buffer Format.dumps creates for Csv (newline = ''): the first row
+        through writer.writerow (the header), the others through writer.writerows"""
+        import csv
+        with io.StringIO(newline='') as buf:
+            writer = csv.writer(buf, dialect=csv.excel)
+            if R:
+                writer.writerow(R[0])
+            writer.writerows(R[1:])
+            return buf.getvalue()
+
+    @staticmethod
+    def csv_excel_lines(lines):
+        """the real thing: list(csv.reader(lines, dialect=csv.excel)) for an iterable of texts; None = _csv.Error"""
+        import csv
+        try:
+            return list(csv.reader(lines, dialect=csv.excel))
+        except csv.Error:
+            return None
+
+    @classmethod
+    def csv_excel_rows(cls, x, newline='\n'):
+        """the real thing: the rows csv.reader yields for the file object Format.loads hands to loadf, io.StringIO(x) (whose newline
+        is '\\n': no translation, lines end at '\\n' only); None = _csv.Error"""
+        with io.StringIO(x, newline=newline) as buf:
+            return cls.csv_excel_lines(buf)
+
+    @classmethod
+    def excel_ok(cls, x):
+        return cls.csv_excel_rows(x) is not None
+
+    @classmethod
+    def excel_read(cls, x):
+        return cls.csv_excel_rows(x)
+
+    excel_text = csv_excel_text
 
     @staticmethod
     def written(L):
@@ -552,6 +745,44 @@ class Z3TT(Z3T):
             ('lines.tail-items', z3.ForAll([L, t], z3.Implies(z3.And(0 <= t, t < self.llen(L) - 1), self.lat(self.tail(L), t) == self.lat(L, t + 1)),
                                            patterns=[self.lat(self.tail(L), t)])),
             ('ints.len-nonneg', z3.ForAll([W], self.ilen(W) >= 0, patterns=[self.ilen(W)]))]
+
+
+class Z3TC:
+    """The vocabulary of the csv format in the excel dialect (units of contracts/formats_chars_csv.py).  Sorts: Text (a python str; the
+    SAME sort as contracts/formats_csv.py uses for the cells of its row-level contracts), Cells (a list of str: one row), CsvRows (a list of rows).
+        tlen(x)      ncells(C), cell_at(C, i): the cells of a row      nrows(R), row_at(R, i): the rows
+        excel_text(R)  what csv.writer(buf, dialect=csv.excel) leaves in an io.StringIO(newline='') after writerow(R[0]); writerows(R[1:])
+        excel_ok(x), excel_read(x)   list(csv.reader(io.StringIO(x), dialect=csv.excel)) raises no _csv.Error / the rows it yields
+        csv_limit()  csv.field_size_limit()"""
+    symbolic = True
+
+    def __init__(self):
+        import z3
+        self.z3 = z3
+        I, B = z3.IntSort(), z3.BoolSort()
+        self.Txt, self.Cells, self.Rows = z3.DeclareSort('Text'), z3.DeclareSort('Cells'), z3.DeclareSort('CsvRows')
+        F = z3.Function
+        self.tlen = F('text.len', self.Txt, I)
+        self.ncells, self.cell_at = F('cells.len', self.Cells, I), F('cells.at', self.Cells, I, self.Txt)
+        self.nrows, self.row_at = F('csvrows.len', self.Rows, I), F('csvrows.at', self.Rows, I, self.Cells)
+        self.excel_text = F('csv.excel.text', self.Rows, self.Txt)
+        self.excel_ok, self.excel_read = F('csv.excel.ok', self.Txt, B), F('csv.excel.read', self.Txt, self.Rows)
+        self._limit = z3.Int('csv.field_size_limit()')
+        self.And, self.Or, self.Not, self.Implies = z3.And, z3.Or, z3.Not, z3.Implies
+
+    def csv_limit(self):
+        return self._limit
+
+    def literal_facts(self, lits):
+        """the length of the python literals (a dict literal -> term), EVALUATED with CPython"""
+        return [('literal %r: len' % (s,), self.tlen(t) == len(s)) for s, t in lits.items()]
+
+    def axioms(self):
+        z3 = self.z3
+        x, C, R = z3.Const('x', self.Txt), z3.Const('C', self.Cells), z3.Const('R', self.Rows)
+        return [('text.len-nonneg', z3.ForAll([x], self.tlen(x) >= 0, patterns=[self.tlen(x)])),
+                ('cells.len-nonneg', z3.ForAll([C], self.ncells(C) >= 0, patterns=[self.ncells(C)])),
+                ('csvrows.len-nonneg', z3.ForAll([R], self.nrows(R) >= 0, patterns=[self.nrows(R)]))]
 
 
 # ---------------------------------------------------------------------------------------------------------------------
@@ -793,7 +1024,22 @@ def L_csv_rows(T, L):
                   ('forall', 'rows-are-the-fields-of-the-lines', 0, n, lambda t: T.csv_row(x, t) == T.csv_fields(T.lat(L, t)), lambda t: T.csv_row(x, t))]
 
 
-LEAN = {'L_source_parts': ['cxt_source_parts'], 'L_numbers': ['splitWs_pair'], 'L_dec': ['intOf_dec', 'dec_ne_nil', 'dec_not_ws'],
+# ---- the csv module in the excel dialect (interpretations: PyT, Z3TC)
+
+def L_csv_excel(T, R):
+    """TextCsv.csv_roundtrip (lemmas/TextCsv.lean), with the LIBRARY ASSUMPTION "in the excel dialect csv.writer writes csvWriteRow for every row
+    of texts and csv.reader over io.StringIO(text) yields csvReadRows (csv.field_size_limit()) text" (the C module _csv):  no cell of R is longer
+    than the field size limit  ==>  reading the text written for the rows R raises no _csv.Error and yields R -- ANY rows of ANY texts: the row
+    without cells, the lone empty cell, cells with commas, quotes, '\\r', '\\n'."""
+    lim = T.csv_limit()
+    prem = [('forall2', 'no-cell-longer-than-the-field-size-limit', 0, T.nrows(R), lambda t: 0, lambda t: T.ncells(T.row_at(R, t)),
+             lambda t, c: T.tlen(T.cell_at(T.row_at(R, t), c)) <= lim, lambda t, c: T.cell_at(T.row_at(R, t), c))]
+    x = T.excel_text(R)
+    return prem, [('fact', 'rows-back', T.And(T.excel_ok(x), T.excel_read(x) == R))]
+
+
+LEAN = {'L_csv_excel': ['TextCsv.csv_roundtrip'],
+        'L_source_parts': ['cxt_source_parts'], 'L_numbers': ['splitWs_pair'], 'L_dec': ['intOf_dec', 'dec_ne_nil', 'dec_not_ws'],
         'L_nows': ['nows_facts'], 'L_table_lines': ['table_lines'], 'L_split_join': ['split_join', 'split_join_nil'], 'L_strip_id': ['strip_eq_self'],
         'L_row': ['length_rowText', 'rowText_facts', 'mem_rowText', 'values_rowText_any'], 'L_written': [],
         # the table format, FIMI
@@ -874,12 +1120,14 @@ def selftest(maxlen=5, verbose=False):
                 n += 1
 
     n += _selftest_table_model(maxlen)
+    n += _selftest_csv_model(maxlen)
 
     # the lemma schemas, evaluated with CPython's functions
     def count(name, k):
         live[name] = live.get(name, 0) + k
     T = PyT()
     _selftest_table_schemas(T, count, live)
+    _selftest_csv_schemas(T, count, live)
     words = [w for w in _texts(('a', ' ', '\n', '\r', '\t', '0'), 3)]
     for x in _texts(ALPHABET, 3):
         count('L_strip_id', _check_schema(T, *L_strip_id(T, x)))
@@ -1047,6 +1295,123 @@ def _selftest_table_schemas(T, count, live):
         assert live.pop(name) == 0, name
 
 
+CSV_ALPHABET = (',', '"', '\r', '\n', ' ', 'X')
+
+
+def _csv_check_reader(s, lim):
+    """csv.reader on the text s, read as io.StringIO(s) (lines end at '\\n') and as a file opened with newline='' (lines end at '\\r', '\\n',
+    '\\r\\n'), against the state machine"""
+    assert PyT.csv_excel_rows(s) == m_csv_read_rows(lim, s), (repr(s), lim)
+    with io.StringIO(s, newline='') as buf:
+        assert list(buf) == m_lines_univ(s), repr(s)
+    assert PyT.csv_excel_rows(s, newline='') == m_csv_read_lines(lim, m_lines_univ(s)), (repr(s), lim)
+    return 3
+
+
+def _selftest_csv_model(maxlen):
+    """CPython's csv module in the excel dialect against the python copy of lemmas/TextCsv.lean, on an enumerated scope"""
+    import csv
+    import random
+    import sys
+    n = 0
+    d = csv.reader([], dialect=csv.excel).dialect
+    assert {k: getattr(d, k) for k in EXCEL_DIALECT} == dict(EXCEL_DIALECT, quoting=getattr(csv, EXCEL_DIALECT['quoting']))
+    with io.StringIO() as buf:              # the registered name and "no dialect" are the same parameters, for the reader and for the writer
+        for d2 in [csv.reader([], dialect=x).dialect for x in ('excel', None)] + [csv.writer(buf, dialect=x).dialect for x in (csv.excel, 'excel', None)]:
+            assert {k: getattr(d2, k) for k in EXCEL_DIALECT} == {k: getattr(d, k) for k in EXCEL_DIALECT}
+    lim = csv.field_size_limit()
+    # ---- the reader: every text over the alphabet up to maxlen + 1 characters, two ways of cutting it into lines
+    for s in _texts(CSV_ALPHABET, maxlen + 1):
+        n += _csv_check_reader(s, lim)
+    for s in _texts((',', '"', '\n', 'X'), maxlen + 3):
+        n += _csv_check_reader(s, lim)
+    # ---- the reader on iterables of lines that no file yields (empty lines, lines without a line end in the middle)
+    pool = ['', 'X', '"X', 'X"', ',', '\n', '\r', 'X,\n', '"', '""', 'X\rX', ' ', '"\n']
+    for k in range(0, 4):
+        for lines in itertools.product(pool, repeat=k):
+            assert PyT.csv_excel_lines(list(lines)) == m_csv_read_lines(lim, list(lines)), lines
+            n += 1
+    # ---- the writer, and the reader on what it wrote: one cell up to maxlen characters, two cells up to 2, three cells up to 2 / 1 / 2
+    fields = {k: list(_texts(CSV_ALPHABET, k)) for k in (1, 2, maxlen)}
+    rows = [[f] for f in fields[maxlen]] + [list(r) for r in itertools.product(fields[2], repeat=2)] \
+        + [list(r) for r in itertools.product(fields[2], fields[1], fields[2])] + [[]]
+    for r in rows:
+        text = PyT.csv_excel_text([r])
+        assert text == m_csv_write_row(r) == m_csv_write_rows([r]), r
+        assert PyT.csv_excel_rows(text) == [r] == m_csv_read_rows(lim, text) == PyT.csv_excel_rows(text, newline=''), r
+        n += 2
+    pool = [[], [''], ['', ''], ['X'], ['X,', '"'], ['\r', 'X\nX', ''], ['\n'], [' X ', '""']]
+    for k in range(0, 4):
+        for R in itertools.product(pool, repeat=k):
+            R = [list(r) for r in R]
+            text = PyT.csv_excel_text(R)
+            assert text == m_csv_write_rows(R) and PyT.csv_excel_rows(text) == R == m_csv_read_rows(lim, text), R
+            n += 1
+    # ---- random longer ones (other characters too: str.isspace characters, NUL, non-ASCII)
+    rnd = random.Random(20260929)
+    chars = CSV_ALPHABET + ('a', '\t', '\x00', '\x85', ' ', '\x1c', ';', "'", '\xe9', '\U0001f600')
+    for _ in range(3000):
+        R = [[''.join(rnd.choice(chars) for _ in range(rnd.randrange(0, 12))) for _ in range(rnd.randrange(0, 6))] for _ in range(rnd.randrange(0, 5))]
+        text = PyT.csv_excel_text(R)
+        assert text == m_csv_write_rows(R) and PyT.csv_excel_rows(text) == R == m_csv_read_rows(lim, text), R
+        s = ''.join(rnd.choice(chars) for _ in range(rnd.randrange(0, 40)))
+        n += 1 + _csv_check_reader(s, lim)
+    # ---- no other character makes the writer quote or the reader stumble: every code point below U+3100 (and every 89th above) as a cell of its own,
+    #      bare, between blanks and doubled
+    for cp in list(range(0, 0x3100)) + list(range(0x3100, sys.maxunicode + 1, 89)):
+        ch = chr(cp)
+        R = [[ch, ' ' + ch + ' ', ch + ch]]
+        text = PyT.csv_excel_text(R)
+        assert text == m_csv_write_rows(R) and PyT.csv_excel_rows(text) == R == m_csv_read_rows(lim, text), hex(cp)
+        assert (text == ch + ', ' + ch + ' ,' + ch + ch + '\r\n') == (ch not in ',"\r\n'), hex(cp)
+        n += 2
+    # ---- cells that are not texts: None is written as the empty text, a number with str()
+    for r in ([None], [None, 1, 0], [None, 'X', ''], [0], [1, None], ['a', 10 ** 20, -5]):
+        assert PyT.csv_excel_text([r]) == m_csv_write_row(['' if v is None else str(v) for v in r]), r
+        n += 1
+    # ---- the field size limit: the default one at its edge, then small ones (the limit is process-wide state: restored)
+    big = 'x' * lim
+    for f, ok in ((big, True), (big + 'y', False), ('"' + big[1:], True), ('"' + big, False)):
+        text = m_csv_write_row(['a', f])
+        assert text == PyT.csv_excel_text([['a', f]]) and PyT.csv_excel_rows(text) == m_csv_read_rows(lim, text) == ([['a', f]] if ok else None)
+        n += 1
+    try:
+        for small in (0, 1, 3):
+            csv.field_size_limit(small)
+            assert PyT.csv_limit() == small
+            for s in _texts((',', '"', '\n', 'X'), maxlen + 1):
+                assert PyT.csv_excel_rows(s) == m_csv_read_rows(small, s), (repr(s), small)
+                n += 1
+            for r in rows[:len(fields[maxlen])]:
+                text = PyT.csv_excel_text([r])
+                assert PyT.csv_excel_rows(text) == m_csv_read_rows(small, text) == ([r] if len(r[0]) <= small else None), (r, small)
+                n += 1
+    finally:
+        csv.field_size_limit(lim)
+    return n
+
+
+def _selftest_csv_schemas(T, count, live):
+    """L_csv_excel evaluated with CPython's csv module"""
+    import csv
+    cells = ['', 'X', '0', 'a,b', 'c"d', 'e\rf', 'g\nh', ' i ', '"', '\r\n', 'long label']
+    pool = [[], ['']] + [[c] for c in cells] + [list(r) for r in itertools.product(cells[:6], repeat=2)] + [['', 'X', ''], ['a,b', '', 'c"d', '\n']]
+    for k in range(0, 3):
+        for R in itertools.product(pool, repeat=k):
+            count('L_csv_excel', _check_schema(T, *L_csv_excel(T, [list(r) for r in R])))
+    lim = csv.field_size_limit()
+    try:
+        csv.field_size_limit(3)         # with a small limit the premise fails for some rows: those instances are vacuous, the others hold
+        vac = 0
+        for R in itertools.product(pool, repeat=2):
+            k = _check_schema(T, *L_csv_excel(T, [list(r) for r in R]))
+            count('L_csv_excel', k)
+            vac += 1 - k
+        assert vac > 0
+    finally:
+        csv.field_size_limit(lim)
+
+
 # ---------------------------------------------------------------------------------------------------------------------
 # 2b. CPython against the Lean definitions themselves (thorough tier; needs the Lean toolchain)
 
@@ -1181,6 +1546,72 @@ def selftest_lean(maxlen=4, lean_file=None):
     assert sum(1 for g in vals[17] if g[0] == 1) > 50
     cmp_(vals[18], [[[code(f) for f in r] for r in PyT.csv_rows(t)] for t in csv_texts], ('csv reader rows', csv_texts))
     cmp_(vals[19], [[code(f) for f in PyT.csv_rows(t + '\n')[0]] for t in csv_lines], ('csv reader fields of a line', csv_lines))
+    return n + selftest_lean_csv(maxlen)
+
+
+def selftest_lean_csv(maxlen=4, lean_file=None):
+    """Run the DEFINITIONS of lemmas/TextCsv.lean (csvWriteRows, csvReadRows, csvReadLines; `#eval` in a scratch copy of the file) on an
+    enumerated scope and compare every result with CPython's csv module in the excel dialect.  Returns the number of comparisons."""
+    import csv
+    import json
+    import os
+    import random
+    import subprocess
+    import tempfile
+    here = os.path.dirname(os.path.dirname(os.path.abspath(__file__)))
+    lean_file = lean_file or os.path.join(here, 'lemmas', 'TextCsv.lean')
+    with open(lean_file, encoding='utf-8') as f:
+        src = f.read()
+    rnd = random.Random(7)
+    chars = CSV_ALPHABET + ('a', '\t', '\x00', '\x85', '\u2028', '\xe9')
+    texts = list(_texts(CSV_ALPHABET, maxlen - 1)) + list(_texts((',', '"', '\n', 'X'), maxlen + 1)) \
+        + [''.join(rnd.choice(chars) for _ in range(rnd.randrange(0, 30))) for _ in range(300)]
+    cells = list(_texts(CSV_ALPHABET, 2)) + ['a b', ' X ', 'X\r\nX', '"X"', ',,', 'long label, "quoted"\n']
+    tables = [[]] + [[[c]] for c in cells] + [[list(r)] for r in itertools.product(cells[:7], repeat=2)] + [[[]], [[], ['']], [[''], [], ['', '']]] \
+        + [[[rnd.choice(cells) for _ in range(rnd.randrange(0, 5))] for _ in range(rnd.randrange(0, 4))] for _ in range(300)]
+    pool = ['', 'X', '"X', 'X"', ',', '\n', '\r', 'X,\n', '"', '""', 'X\rX', '"\n']
+    line_lists = [list(l) for k in range(0, 3) for l in itertools.product(pool, repeat=k)] + [['"X', '', 'X"'], ['', 'X', '', '"X', '', 'Y"'], ['X\n', '\rX']]
+    lim = csv.field_size_limit()
+    q = lambda xs: '[' + ', '.join(xs) + ']'
+    NONE = 0x110000          # no code point: marks the result `none` (_csv.Error)
+    enc = '(fun (o : Option (List Row)) => match o with | none => [[[%d]]] | some rows => rows.map (fun (r : Row) => r.map (fun (f : List Char) => f.map Char.toNat)))' % NONE
+    prog = ['open TextCsv in', 'def selftestTexts : List (List Char) := ' + q(_lean_str(t) for t in texts),
+            'open TextCsv in', 'def selftestTables : List (List Row) := ' + q(q(q(_lean_str(c) for c in r) for r in R) for R in tables),
+            'open TextCsv in', 'def selftestLines : List (List (List Char)) := ' + q(q(_lean_str(l) for l in L) for L in line_lists)]
+    for small in (lim, 3, 0):
+        prog += ['open TextCsv in', '#eval IO.println (toString (selftestTexts.map (fun s => %s (csvReadRows %d s))))' % (enc, small)]
+    prog += ['open TextCsv in', '#eval IO.println (toString (selftestTables.map (fun R => (csvWriteRows R).map Char.toNat)))',
+             'open TextCsv in', '#eval IO.println (toString (selftestTables.map (fun R => %s (csvReadRows %d (csvWriteRows R)))))' % (enc, lim),
+             'open TextCsv in', '#eval IO.println (toString (selftestLines.map (fun L => %s (csvReadLines %d L))))' % (enc, lim)]
+    with tempfile.TemporaryDirectory() as d:
+        fn = os.path.join(d, 'TextCsvSelftest.lean')
+        with open(fn, 'w', encoding='utf-8') as f:
+            f.write(src + '\n\n' + '\n'.join(prog) + '\n')
+        out = subprocess.run(['lake', 'env', 'lean', fn], cwd=LEAN_DIR, capture_output=True, text=True, timeout=900)
+    lines = [l for l in out.stdout.splitlines() if l.startswith('[')]
+    assert out.returncode == 0 and len(lines) == 6, (out.returncode, out.stdout[-2000:], out.stderr[-2000:])
+    vals = [json.loads(l) for l in lines]
+    code = lambda s: [ord(c) for c in s]
+    rows_code = lambda rows: [[[NONE]]] if rows is None else [[code(f) for f in r] for r in rows]
+    n = 0
+
+    def cmp_(got, want, what):
+        nonlocal n
+        assert len(got) == len(want), what[0]
+        for g, w, arg in zip(got, want, what[1]):
+            assert g == w, (what[0], arg, g, w)
+            n += 1
+    try:
+        for i, small in enumerate((lim, 3, 0)):
+            csv.field_size_limit(small)
+            cmp_(vals[i], [rows_code(PyT.csv_excel_rows(t)) for t in texts], ('csv.reader over io.StringIO(text), limit %d' % small, texts))
+    finally:
+        csv.field_size_limit(lim)
+    assert any(v == [[[NONE]]] for v in vals[0]) and sum(v == [[[NONE]]] for v in vals[1]) > sum(v == [[[NONE]]] for v in vals[0])
+    cmp_(vals[3], [code(PyT.csv_excel_text(R)) for R in tables], ('csv.writer', tables))
+    cmp_(vals[4], [rows_code(PyT.csv_excel_rows(PyT.csv_excel_text(R))) for R in tables], ('csv.reader on the written text', tables))
+    assert vals[4] == [rows_code(R) for R in tables]
+    cmp_(vals[5], [rows_code(PyT.csv_excel_lines(L)) for L in line_lists], ('csv.reader over a list of lines', line_lists))
     return n
 
 
